@@ -497,6 +497,10 @@ func readOut(path string) (ds []delivered, ready bool) {
 			continue
 		}
 		switch ln[0] {
+		case 'K': // k8s_pod meta value of a delivered event: statistics only
+			if len(ln) > 2 {
+				k8sSeen.Store(string(ln[2:]), true)
+			}
 		case 'R':
 			ready = true
 		case 'D':
@@ -510,6 +514,8 @@ func readOut(path string) (ds []delivered, ready bool) {
 	}
 	return ds, ready
 }
+
+var k8sSeen sync.Map // k8s_pod values seen on delivered events (k8s meta templates on)
 
 var childSlots = make(chan struct{}, 10) // helper processes alive at one time
 
